@@ -457,6 +457,10 @@ func main() {
 	case "lagging":
 		// a follower is down while the catalogue changes and the others compact their logs: it catches
 		// up through a snapshot installed into the catalogue it rebuilt from its own (older) log
+		// (the follower already knows some of the datasets the snapshot will contain, others not)
+		create(a, 1, 1)
+		create(b, 2, 2)
+		observe(ps, "create")
 		c.kill()
 		if d2 != "" {
 			del(a, d2)
@@ -464,6 +468,8 @@ func main() {
 		d3 := create(a, 1, 2)
 		d4 := create(b, 2, 1)
 		_, _ = d3, d4
+		create(a, 1, 1)
+		create(b, 1, 2)
 		observe(ps, "create")
 		for _, p := range []*proc{a, b} {
 			if p.checkAlive() {
